@@ -26,9 +26,10 @@ kind = head[0]
 # the replay writer turns every schedule header into CCASE; the original id tells the family
 if kind == "CCASE" and head[1].startswith("st-"):
     kind = head[0] = "STRESS"
-elif kind == "CCASE" and head[1].startswith("p-"):
+elif kind == "CCASE" and head[1].startswith(("p-", "e-")):
     kind = head[0] = "PCASE"
-head[1] = ("st-" if kind == "STRESS" else "p-" if kind == "PCASE" else "") + "seeded-" + sid
+pref = head[1].split("-")[0] + "-" if head[1].split("-")[0] in ("st", "p", "e", "t3", "ds") else ""
+head[1] = pref + "seeded-" + sid
 block[0] = " ".join(head)
 if kind in ("CCASE", "PCASE", "STRESS"):
     dest = ROOT + "/corpus/sched.txt"
